@@ -273,6 +273,34 @@ def call(f, *a, **kw):
 
 # ------------------------------------------------------------------ oracle on one call
 
+def diagnose_solution_cost(con, var, infinity, hard, soft, bad_hard, bad_soft):
+    """Signature of a wrong (hard, soft): the first wrong accounting rule that explains the returned pair, otherwise
+    which number is wrong and which kind of term equals infinity."""
+    def acc(hard_terms, soft_terms):
+        return sum(1 for t in hard_terms), sum(soft_terms)
+
+    terms = con + var
+    rules = [
+        ("constraint-terms-above-infinity-counted-hard",
+         acc([t for t in con if t >= infinity] + [t for t in var if t == infinity], [t for t in con if t < infinity] + [t for t in var if t != infinity])),
+        ("variable-costs-above-infinity-counted-hard",
+         acc([t for t in var if t >= infinity] + [t for t in con if t == infinity], [t for t in var if t < infinity] + [t for t in con if t != infinity])),
+        ("terms-above-infinity-counted-hard", acc([t for t in terms if t >= infinity], [t for t in terms if t < infinity])),
+        ("variable-cost-infinity-summed", acc([t for t in con if t == infinity], [t for t in con if t != infinity] + var)),
+        ("constraint-infinity-summed", acc([t for t in var if t == infinity], [t for t in var if t != infinity] + con)),
+        ("infinity-terms-summed", (0, sum(terms))),
+        ("variable-costs-ignored", acc([t for t in con if t == infinity], [t for t in con if t != infinity])),
+        ("constraints-ignored", acc([t for t in var if t == infinity], [t for t in var if t != infinity])),
+        ("hard-and-soft-swapped", (sum(t for t in terms if t != infinity), sum(1 for t in terms if t == infinity))),
+    ]
+    for name, (h, s) in rules:
+        if close(hard, h) and close(soft, s):
+            return name
+    which = "+".join(w for w, b in (("hard", bad_hard), ("soft", bad_soft)) if b)
+    where = "+".join(w for w, b in (("con", infinity in con), ("var", infinity in var)) if b) or "none"
+    return f"{which}-wrong|infinity_in={where}"
+
+
 def judge_complete(model, kind, entry, assignment, infinity, got, part):
     """`got` = outcome of solution_cost on a complete assignment (`assignment` includes the external value for
     entry == 'function')."""
@@ -287,11 +315,8 @@ def judge_complete(model, kind, entry, assignment, infinity, got, part):
     def head():
         return f"{model.describe()} [{kind} relations]: solution_cost({assignment}, infinity={infinity}) via {entry}"
 
-    def ext_in_scope():
-        return int(any(EXT in scope for _, scope, _ in model.cons))
-
     if got[0] == "exc":
-        report(part, f"solution_cost|{entry}|complete-raises-{got[1]}|ext={int(model.ext is not None)}|ext_in_scope={ext_in_scope()}",
+        report(part, f"solution_cost|{entry}|complete-raises-{got[1]}|ext={int(model.ext is not None)}",
                lambda: f"{head()} raised {got[1]}({got[2]}); expected {exp}", case)
         return ("raised", got[1])
     try:
@@ -302,11 +327,7 @@ def judge_complete(model, kind, entry, assignment, infinity, got, part):
     bad_hard = not close(hard, exp[0])
     bad_soft = not close(soft, exp[1])
     if bad_hard or bad_soft:
-        above = int(any(t != infinity and t > infinity for t in terms))
-        which = "+".join(w for w, b in (("hard", bad_hard), ("soft", bad_soft)) if b)
-        report(part,
-               f"solution_cost|{entry}|{which}|con_inf={int(infinity in con)}|var_inf={int(infinity in var)}|above_inf={above}"
-               f"|ext_in_scope={ext_in_scope()}",
+        report(part, "solution_cost|" + diagnose_solution_cost(con, var, infinity, hard, soft, bad_hard, bad_soft),
                lambda: f"{head()} returned {(hard, soft)}; expected {exp} (constraint terms {con}, variable-cost terms {var})", case)
     try:
         return (int(hard), enc(float(soft)))
@@ -348,7 +369,18 @@ def judge_assignment_cost(model, kind, assignment, kwargs, consider, shadow, got
         report(part, f"assignment_cost|raises-{got[1]}|{flags}", lambda: f"{head()} raised {got[1]}({got[2]}); expected {exp}", case)
         return ("raised", got[1])
     if not close(got[1], exp):
-        report(part, f"assignment_cost|value|{flags}", lambda: f"{head()} returned {got[1]!r}; expected {exp}", case)
+        con = model.assignment_cost(full, False)
+        per_constraint = sum(model.var_cost(v, full[v]) for _, scope, _ in model.cons for v in scope)
+        every_var = sum(model.var_cost(v, full[v]) for v in model.all)
+        if consider and close(got[1], con):
+            why = "variable-costs-ignored"
+        elif consider and close(got[1], con + per_constraint):
+            why = "variable-cost-counted-once-per-constraint"
+        elif not consider and (close(got[1], con + every_var) or close(got[1], exp + (model.assignment_cost(full, True) - con))):
+            why = "variable-costs-added-unrequested"
+        else:
+            why = "other"
+        report(part, f"assignment_cost|value|{why}" + (f"|{flags}" if why == "other" else ""), lambda: f"{head()} returned {got[1]!r}; expected {exp}", case)
     try:
         return (enc(float(got[1])),)
     except (TypeError, ValueError):
@@ -461,7 +493,7 @@ A7 = [0, 1, 10000, -1, INF, 2.5, 2 ** 40]
 MIXED = [("expr", 4), ("func", 1), ("dict", 3)]
 # (relation kind, variable-cost configuration): none / every variable a dict with an `infinity` entry / mixed kinds
 COMBOS_QUICK = [("matrix", "none"), ("matrix", "dict"), ("matrix", "mixed"), ("expr", "mixed")]
-COMBOS_THOROUGH = COMBOS_QUICK + [("func", "mixed"), ("expr", "dict")]
+COMBOS_THOROUGH = [(k, c) for k in ("matrix", "expr", "func") for c in ("none", "dict", "mixed")]
 
 # S1 bands: alphabet, largest scope, largest number of constraints as a function of the number of variables (incl. the
 # external one), (relation kind, cost configuration) pairs, few/all keyword splits for assignment_cost
